@@ -44,6 +44,26 @@ Definition amount_canonical (s : bytes) : bool :=
   end
   && match s with 48 :: c :: _ => c =? 46 | _ => true end.   (* no leading zero on the integer part *)
 
+(** ** Which recipients can receive a memo / can only be paid transparently, from the kind of the
+    address and, for a unified address, the typecodes of its receivers (ZIP 316: 0 = P2PKH, 1 = P2SH,
+    2 = Sapling, 3 = Orchard; any other typecode is an unknown receiver, which is neither shielded nor
+    transparent). *)
+Inductive ashape := SSprout | SSapling | SP2pkh | SP2sh | STex | SUnified (tcs : list Z).
+Definition shielded_tc (tc : Z) : bool := (tc =? 2) || (tc =? 3).
+Definition transparent_tc (tc : Z) : bool := (tc =? 0) || (tc =? 1).
+Definition shape_memo (s : ashape) : bool :=
+  match s with
+  | SSprout | SSapling => true
+  | SUnified tcs => existsb shielded_tc tcs
+  | SP2pkh | SP2sh | STex => false
+  end.
+Definition shape_tonly (s : ashape) : bool :=
+  match s with
+  | SSprout | SSapling => false
+  | SUnified tcs => existsb transparent_tc tcs && negb (existsb shielded_tc tcs)
+  | SP2pkh | SP2sh | STex => true
+  end.
+
 (** ** Requests *)
 Definition reserved_names : list bytes := [s_address; s_amount; s_memo; s_label; s_message].
 Definition reservedb (n : bytes) : bool :=
